@@ -65,7 +65,7 @@ pub fn strategy() -> BoxedStrategy<Case> {
         any::<bool>(),
         depth_storage(),
         any::<bool>(),
-        0u8..6,
+        0u8..7,
         any::<u64>(),
         1usize..=256,
         // labels are carried through unchanged; any supported pair
@@ -213,13 +213,15 @@ pub fn check(case: &Case, st: &mut Stats) -> Result<(), Violation> {
 /// other on the same thread, with the two ranges of each depth adjacent (per-thread caches keyed on part
 /// of the config would show), content from the boundary / extreme / related-neighbour strata.
 fn large_frames(ctx: &Ctx, st: &mut Stats) -> Vec<Violation> {
-    let sizes: Vec<(usize, usize)> = if ctx.light { vec![(256, 128), (257, 255), (521, 511)] } else if ctx.quick() { crate::gen::LARGE_SIZES[..8].to_vec() } else { crate::gen::LARGE_SIZES.to_vec() };
+    let sizes: Vec<(usize, usize)> = if ctx.light { vec![(256, 128), (257, 255), (521, 511)] } else { crate::gen::large_sizes(ctx.quick()) };
     let seed0 = ctx.seed;
-    par_sweep(ctx, st, sizes.len() as u64, |lo, hi, st| {
-        for j in lo..hi {
+    // one job = one size and one depth/storage; its three ranges run back to back on the same thread
+    par_sweep(ctx, st, sizes.len() as u64 * 4, |lo, hi, st| {
+        for jj in lo..hi {
+            let j = jj / 4;
             let (w, h) = sizes[j as usize];
-            let mut k = 0u64;
-            for (depth, u8s) in [(8u8, true), (16, false), (8, false), (10, false)] {
+            let mut k = (jj % 4) * 3;
+            for (depth, u8s) in [[(8u8, true), (16, false), (8, false), (10, false)][(jj % 4) as usize]] {
                 for full in [false, true, false] {
                     let mc = STD_MC[((j + k) % 7) as usize];
                     k += 1;
@@ -250,12 +252,220 @@ fn large_frames(ctx: &Ctx, st: &mut Stats) -> Vec<Violation> {
     })
 }
 
+// ---------------------------------------------------------------- subsampled frames
+/// A subsampled YUV image: "every pixel" of the statement then means luma sample (x,y) with the chroma sample
+/// of its block, (x >> ss_x, y >> ss_y).
+#[derive(Debug, Clone)]
+pub struct SubCase {
+    pub cfg: YuvConfig,
+    pub u8_storage: bool,
+    pub by_value: bool,
+    /// size in chroma samples
+    pub bw: usize,
+    pub bh: usize,
+    pub planes: SubPlanes,
+    pub pads: [(usize, usize); 3],
+}
+#[derive(Debug, Clone)]
+pub enum SubPlanes {
+    Seeded { stratum: u8, seed: u64 },
+    Explicit([Vec<u16>; 3]),
+}
+impl SubCase {
+    fn dims(&self) -> (usize, usize) {
+        (self.bw << self.cfg.subsampling_x, self.bh << self.cfg.subsampling_y)
+    }
+    fn planes(&self) -> [Vec<u16>; 3] {
+        match &self.planes {
+            SubPlanes::Explicit(p) => p.clone(),
+            SubPlanes::Seeded { stratum, seed } => {
+                let (w, h) = self.dims();
+                let luma = expand_codes(self.cfg.bit_depth, *stratum, *seed, w * h);
+                let chroma = expand_codes(self.cfg.bit_depth, stratum.wrapping_add((*seed % 3) as u8), mix64(*seed), self.bw * self.bh);
+                [luma.iter().map(|c| c[0]).collect(), chroma.iter().map(|c| c[1]).collect(), chroma.iter().map(|c| c[2]).collect()]
+            }
+        }
+    }
+    fn json_with(&self, planes: &[Vec<u16>; 3]) -> Value {
+        json!({"prop":"C01","part":"subsampled","cfg":cfg_json(&self.cfg),"storage": if self.u8_storage {"u8"} else {"u16"},"by_value":self.by_value,
+               "bw":self.bw,"bh":self.bh,"pads":self.pads,"planes":planes})
+    }
+    fn from_json(v: &Value) -> Option<SubCase> {
+        Some(SubCase {
+            cfg: cfg_from_json(v.get("cfg")?)?,
+            u8_storage: v.get("storage").and_then(|s| s.as_str()) == Some("u8"),
+            by_value: v.get("by_value").and_then(|s| s.as_bool()).unwrap_or(false),
+            bw: v.get("bw")?.as_u64()? as usize,
+            bh: v.get("bh")?.as_u64()? as usize,
+            planes: SubPlanes::Explicit(serde_json::from_value(v.get("planes")?.clone()).ok()?),
+            pads: v.get("pads").and_then(|p| serde_json::from_value(p.clone()).ok()).unwrap_or([(0, 0); 3]),
+        })
+    }
+}
+
+pub fn sub_strategy() -> BoxedStrategy<SubCase> {
+    (std_matrix(), any::<bool>(), depth_storage(), crate::gen::pick_from(&crate::gen::SUBSAMPLINGS[1..]), 0u8..7, any::<u64>(), 1usize..=12, 1usize..=6)
+        .prop_map(|(mc, full, (depth, u8s), ss, stratum, seed, bw, bh)| {
+            let mut e = Expand(seed ^ 0x5B5);
+            let mut pads = [(0usize, 0usize); 3];
+            if e.below(2) == 0 {
+                for p in pads.iter_mut() {
+                    *p = (e.below(33) as usize, e.below(4) as usize);
+                }
+            }
+            // now and then a wide frame (rows of more than 256 / 1024 chroma samples)
+            let (bw, bh) = match e.below(12) {
+                0 => (257 + e.below(300) as usize, 1 + e.below(2) as usize),
+                1 => (1025 + e.below(1100) as usize, 1),
+                _ => (bw, bh),
+            };
+            SubCase { cfg: cfg(mc, TC::BT1886, CP::BT709, depth, full, ss), u8_storage: u8s, by_value: seed % 5 == 0, bw, bh, planes: SubPlanes::Seeded { stratum, seed }, pads }
+        })
+        .boxed()
+}
+
+pub fn check_sub(case: &SubCase, st: &mut Stats) -> Result<(), Violation> {
+    let c = &case.cfg;
+    let planes = case.planes();
+    let (w, h) = case.dims();
+    let (ssx, ssy) = (c.subsampling_x as usize, c.subsampling_y as usize);
+    let sig = format!("C01:decode-subsampled:{}{}:{}:{}", ssx, ssy, mc_name(c.matrix_coefficients), if c.full_range { "full" } else { "limited" });
+    let fail = |msg: String| Violation { signature: sig.clone(), message: format!("{msg}; cfg {}", cfg_json(c)), case: case.json_with(&planes) };
+    fn go<T: Pixel>(case: &SubCase, planes: &[Vec<u16>; 3], w: usize, h: usize) -> Result<Rgb, String> {
+        let c = &case.cfg;
+        let frame = crate::conv::yuv_frame::<T>(w, h, (c.subsampling_x, c.subsampling_y), case.pads, planes, 0);
+        let yuv = Yuv::<T>::new(frame, *c).map_err(|e| format!("Yuv::new rejected a well-formed frame: {e:?}"))?;
+        let r = if case.by_value { Rgb::try_from(yuv) } else { Rgb::try_from(&yuv) };
+        r.map_err(|e| format!("decode failed: {e:?}"))
+    }
+    let rgb = match catch(|| if case.u8_storage { go::<u8>(case, &planes, w, h) } else { go::<u16>(case, &planes, w, h) }) {
+        Err(p) => return Err(fail(format!("panic: {p}"))),
+        Ok(Err(e)) => return Err(fail(e)),
+        Ok(Ok(r)) => r,
+    };
+    st.evaluations += 1;
+    if rgb.width() != w || rgb.height() != h || rgb.data().len() != w * h {
+        return Err(fail(format!("dimensions changed: {}x{} len {}", rgb.width(), rgb.height(), rgb.data().len())));
+    }
+    let half = 1u16 << (c.bit_depth - 1);
+    let mut nontrivial = false;
+    for y in 0..h {
+        for x in 0..w {
+            let ci = (y >> ssy) * case.bw + (x >> ssx);
+            let code = [planes[0][y * w + x], planes[1][ci], planes[2][ci]];
+            let want = reference(c, code);
+            let got = rgb.data()[y * w + x];
+            for j in 0..3 {
+                let d = (f64::from(got[j]) - want[j]).abs();
+                if !(d <= TOL) {
+                    return Err(fail(format!(
+                        "pixel ({x},{y}) of a {w}x{h} image with subsampling ({ssx},{ssy}): luma {} with the chroma sample of its block ({},{}) = ({}, {}) decodes to {:?}, H.273 gives {:?} (component {j} off by {:e} > {:e})",
+                        code[0], x >> ssx, y >> ssy, code[1], code[2], got, want, d, TOL
+                    )));
+                }
+                st.max("max_abs_err", d);
+            }
+            if code[1] != half || code[2] != half {
+                nontrivial = true;
+            }
+        }
+    }
+    st.comparisons += (w * h) as u64;
+    st.class(&format!("subsampling_{}{}", ssx, ssy), 1);
+    if nontrivial {
+        st.nontrivial(&(cfg_json(c).to_string(), case.u8_storage, &planes));
+    }
+    st.sample(|| json!({"prop":"C01","part":"subsampled","cfg":cfg_json(c),"bw":case.bw,"bh":case.bh}));
+    Ok(())
+}
+
+/// every subsampling x matrix x range x depth/storage once more, deterministically
+fn subsampled_configs(ctx: &Ctx, st: &mut Stats) -> Vec<Violation> {
+    let mut jobs = Vec::new();
+    for ss in &crate::gen::SUBSAMPLINGS[1..] {
+        for mc in STD_MC {
+            for full in [false, true] {
+                for (depth, u8s) in [(8u8, true), (8, false), (10, false), (12, false), (16, false)] {
+                    jobs.push((cfg(mc, TC::BT1886, CP::BT709, depth, full, *ss), u8s));
+                }
+            }
+        }
+    }
+    let seed0 = ctx.seed;
+    par_sweep(ctx, st, jobs.len() as u64, |lo, hi, st| {
+        for j in lo..hi {
+            let (c, u8s) = jobs[j as usize];
+            let case = SubCase { cfg: c, u8_storage: u8s, by_value: j % 4 == 0, bw: 9 + (j % 5) as usize, bh: 3 + (j % 3) as usize, planes: SubPlanes::Seeded { stratum: (j % 7) as u8, seed: mix64(seed0 ^ j ^ 0x5B6) }, pads: [(0, 0), ((j % 3) as usize, 0), (0, (j % 2) as usize)] };
+            let mut local = Stats::new();
+            local.sample_budget = 0;
+            if let Err(v) = check_sub(&case, &mut local) {
+                return Some(v);
+            }
+            st.evaluations += 1;
+            st.comparisons += local.comparisons;
+            st.nontrivial_by_construction += 1;
+            st.class("subsampled_configs_enumerated", 1);
+        }
+        None
+    })
+}
+
+/// uniformly tinted frames of power-of-two sizes: both chroma planes constant at extreme / neutral values, luma
+/// random - whole-plane statistics (sums that wrap, "is this frame grey" shortcuts) are extreme exactly there
+fn tinted_frames(ctx: &Ctx, st: &mut Stats) -> Vec<Violation> {
+    if ctx.light {
+        return Vec::new();
+    }
+    let sizes = crate::gen::pow2_sizes(ctx.quick());
+    let seed0 = ctx.seed;
+    par_sweep(ctx, st, sizes.len() as u64 * 32, |lo, hi, st| {
+        for j in lo..hi {
+            let (w, h) = sizes[(j / 32) as usize];
+            let (depth, u8s) = [(8u8, true), (16, false), (12, false), (10, false)][((j / 8) % 4) as usize];
+            let pattern = j % 8;
+            let case = Case {
+                cfg: cfg(STD_MC[(j % 7) as usize], TC::BT1886, CP::BT709, depth, j % 3 == 0, (0, 0)),
+                u8_storage: u8s,
+                by_value: j % 5 == 0,
+                codes: Codes::Seeded { stratum: 6, seed: (mix64(seed0 ^ j ^ 0x71D7) & !7) | pattern, n: w * h },
+                layout: Some((h, [(0, 0); 3])),
+            };
+            let mut local = Stats::new();
+            local.sample_budget = 0;
+            if let Err(v) = check(&case, &mut local) {
+                return Some(v);
+            }
+            st.evaluations += 1;
+            st.comparisons += (w * h * 3) as u64;
+            st.nontrivial_by_construction += 1;
+            st.class("tinted_pow2_frames", 1);
+        }
+        None
+    })
+}
+
 pub fn run(ctx: &Ctx, st: &mut Stats) -> Vec<Violation> {
     let mut v = run_proptest(ctx, st, "random", ctx.cases(30_000, 3_000_000), strategy, check);
     if !v.is_empty() {
         return v;
     }
     v.extend(large_frames(ctx, st));
+    if !v.is_empty() {
+        return v;
+    }
+    v.extend(tinted_frames(ctx, st));
+    if !v.is_empty() {
+        return v;
+    }
+    v.extend(run_proptest(ctx, st, "subsampled", ctx.cases(12_000, 600_000), sub_strategy, check_sub));
+    if !v.is_empty() {
+        return v;
+    }
+    v.extend(subsampled_configs(ctx, st));
+    if !v.is_empty() {
+        return v;
+    }
+    v.extend(super::soak::run(ctx, st, "C01", soak_jobs(ctx)));
     if !v.is_empty() {
         return v;
     }
@@ -385,7 +595,36 @@ fn deep_sweeps(ctx: &Ctx, st: &mut Stats) -> Vec<Violation> {
     })
 }
 
+/// long single-thread decode histories (soak.rs): configs differing in matrix, range or depth
+fn soak_jobs(ctx: &Ctx) -> Vec<super::soak::Job> {
+    use super::soak::{with_periods, Side, PERIODS};
+    use crate::conv::{Edge, Kind};
+    let mut jobs = Vec::new();
+    for (kind, depth) in [(Kind::Yuv8, 8u8), (Kind::Yuv16, 10), (Kind::Yuv16, 16)] {
+        let a = cfg(STD_MC[0], TC::BT1886, CP::BT709, depth, false, (0, 0));
+        let mut variants = vec![cfg(STD_MC[5], TC::BT1886, CP::BT709, depth, false, (0, 0)), cfg(STD_MC[0], TC::BT1886, CP::BT709, depth, true, (0, 0)), cfg(STD_MC[6], TC::BT1886, CP::BT709, depth, true, (0, 0))];
+        if kind == Kind::Yuv16 {
+            variants.push(cfg(STD_MC[0], TC::BT1886, CP::BT709, if depth == 16 { 12 } else { 9 }, false, (0, 0)));
+        }
+        for (i, b) in variants.into_iter().enumerate() {
+            if ctx.light && i > 0 {
+                continue;
+            }
+            for by_ref in [true, false] {
+                jobs.extend(with_periods(Side { kind, edge: Edge::YuvToRgb { by_ref }, cfg: a }, Side { kind, edge: Edge::YuvToRgb { by_ref }, cfg: b }, &PERIODS));
+            }
+        }
+    }
+    jobs
+}
+
 pub fn replay(v: &Value) -> Result<(), String> {
+    if v.get("part").and_then(|p| p.as_str()) == Some("soak") {
+        return super::soak::replay("C01", v);
+    }
+    if v.get("part").and_then(|p| p.as_str()) == Some("subsampled") {
+        return check_sub(&SubCase::from_json(v).ok_or("bad subsampled case")?, &mut Stats::new()).map_err(|v| v.message);
+    }
     let cfg = cfg_from_json(v.get("cfg").ok_or("cfg")?).ok_or("bad cfg")?;
     let codes = match v.get("seeded") {
         Some(sd) => Codes::Seeded {
@@ -405,4 +644,4 @@ pub fn replay(v: &Value) -> Result<(), String> {
     check(&case, &mut Stats::new()).map_err(|v| v.message)
 }
 
-pub const RULE: &str = "cases = (matrix in 7 standard, range, depth 8..16, storage, by-ref/by-value, batch of 1..256 code triples from 6 strata: uniform, boundary codes, single-axis sweep, mixed, near-neutral chroma, related neighbours; laid out in 1..4 rows with independent per-plane paddings 0..32) generated by proptest, plus real-size frames (32768 .. 2 M pixels, rows up to 131080 wide, pixel counts that are not multiples of 8) in u8/u16 storage at 8/10/16 bit with the two ranges adjacent on one thread, plus enumerated 8-bit (Y-plane = 65536 triples) and deep sweeps; each pixel compared with the f64 H.273 formula (tol 3e-6); non-trivial = batch containing a pixel whose chroma codes are not both 2^(n-1) (so the matrix matters); distinct = by hash of (config, batch)";
+pub const RULE: &str = "cases = (matrix in 7 standard, range, depth 8..16, storage, by-ref/by-value, batch of 1..256 code triples from 7 strata: uniform, boundary codes, single-axis sweep, mixed, near-neutral chroma, related neighbours, constant chroma; laid out in 1..4 rows with independent per-plane paddings 0..32) generated by proptest, plus real-size frames (32768 .. 2 M pixels, rows up to 131080 wide, pixel counts that are not multiples of 8) in u8/u16 storage at 8/10/16 bit with the two ranges adjacent on one thread, plus uniformly tinted frames of power-of-two sizes (constant extreme / neutral chroma planes), plus subsampled frames (4:2:2, 4:2:0, 4:4:0, 4:1:1, 4:1:0 with independent plane paddings; each luma sample with the chroma sample of its block; random and every subsampling x matrix x range x depth enumerated), plus long single-thread decode histories (periods 255, 256, 65535, 65536; configs differing in matrix, range or depth), plus enumerated 8-bit (Y-plane = 65536 triples) and deep sweeps; each pixel compared with the f64 H.273 formula (tol 3e-6); non-trivial = batch containing a pixel whose chroma codes are not both 2^(n-1) (so the matrix matters); distinct = by hash of (config, batch)";
